@@ -204,6 +204,19 @@ def Facts.canon : Facts where
   cutOnNonDir := true
   sorted := true
 
+/-- The repaired structure: `filepath.SkipDir` is returned for directories only, blacklist entries match whole
+    path components (`isDir && (dir == basename || name == dir || strings.HasPrefix(name, dir+"/"))`). -/
+def Facts.repaired : Facts where
+  outDir := plzOut
+  chain := [
+    ([aIsDir, aBaseEqOut, aBaseHidden, aNameEqDot, opNot, opAnd, opOr, opAnd], actSkip),
+    ([aIsDir, aNameHasPfx, opNot, opAnd, aPfxHasName, opNot, opAnd], actSkip),
+    ([aIsBuild, aIsDir, opNot, opAnd], actEmit),
+    ([aIsDir, aInExp, opAnd], actSkip)]
+  blCond := [aIsDir, aBlEqBase, aBlEqName, opOr, aBlSlashPfx, opOr, opAnd]
+  cutOnNonDir := true
+  sorted := true
+
 /-- Blacklist test with whole-component matching (`dir == basename || name == dir || HasPrefix(name, dir+"/")`). -/
 def blCondComponent : List Nat := [aBlEqBase, aBlEqName, opOr, aBlSlashPfx, opOr]
 
